@@ -20,7 +20,7 @@ CONSTANTS
   SetupSMenu <- MC_SetupSMenu
   SetupRMenu <- MC_SetupRMenu
   RawMenu = {}
-  SeqMenu = {}
+  SeqMenu <- MC_SeqMenu
   PtMenu <- MC_PtMenu
   AadMenu <- MC_AadMenu
   FormMenu = {"alloc"}
